@@ -36,6 +36,9 @@ type entry struct {
 	// HostTimer: the instance gets the timer definition builder on the HOST
 	// clock (no mock clock in its context); its timers are due in an hour
 	HostTimer bool
+	// HeldIngress: the first timer event is held at the event ingress until the
+	// instance has been cancelled (a slow consumer of timer events)
+	HeldIngress bool
 }
 
 // clk advances the mock clock; fired (if not "") is the timer expression the
@@ -231,6 +234,21 @@ func corpus() []entry {
 		}
 		out = append(out, entry{Name: "timer catch events on the host clock, pending", G: b.G, HostTimer: true, Script: []drive.Stim{ans()}})
 	}
+	// a cycle timer whose first firing is still being delivered (held at the
+	// ingress) when the second falls due: the timer waits to hand it over
+	{
+		b := gen.NewB()
+		st := b.Add(gen.KStart)
+		c := b.Add(gen.KCatch)
+		c.Defs = []gen.EventDef{{Kind: "timer", TimerKind: "timeCycle", TimerExpr: "R5/PT10S"}}
+		t := b.Add(gen.KTask)
+		en := b.Add(gen.KEnd)
+		b.Connect(st, c)
+		b.Connect(c, t)
+		b.Connect(t, en)
+		out = append(out, entry{Name: "cycle timer, first firing held at the ingress, second pending", G: b.G, Timer: true, HeldIngress: true,
+			Script: []drive.Stim{clk(10, ""), clk(10, ""), clk(10, "")}})
+	}
 	return out
 }
 
@@ -296,7 +314,7 @@ func run(d descriptor, k int) *result {
 	}
 	prog := &gen.Program{G: e.G, DefaultLang: "expr"}
 	tr := quiesce.Begin()
-	in, err := drive.New(prog.XML(), drive.Options{Vars: e.Vars, Tracker: tr, MockClock: e.Timer, HostTimers: e.HostTimer, SplitCtx: d.Split || d.SplitRun})
+	in, err := drive.New(prog.XML(), drive.Options{Vars: e.Vars, Tracker: tr, MockClock: e.Timer, HostTimers: e.HostTimer, HeldIngress: e.HeldIngress, SplitCtx: d.Split || d.SplitRun})
 	if err != nil {
 		r.Symptom, r.Detail = "construct", err.Error()
 		return r
@@ -326,6 +344,7 @@ func run(d descriptor, k int) *result {
 		// do not leave a live instance behind
 		in.Cancel()
 		in.CancelRun()
+		in.ReleaseIngress()
 		return r
 	}
 	if k == 0 {
@@ -455,6 +474,8 @@ func run(d descriptor, k int) *result {
 		in.CancelRun()
 		cancelled.Store(true)
 	}
+	// (a held timer event is let through now that the contexts are gone)
+	in.ReleaseIngress()
 	// after cancel: WaitUntilComplete must return, tracer terminate, goroutines exit
 	wres := make(chan bool, 1)
 	go func() { wres <- in.P.WaitUntilComplete(context.Background()) }()
